@@ -303,14 +303,14 @@ Fixpoint setopt (fuel : nat) (w : pw) (c : cfg) (o : opt) (txt : option str) {st
           end
       | KSec =>
           let existing := match nth_error (o_vals o1) idx with Some (VSec (Some s)) => Some s | _ => None end in
-          let '(w2, sec) :=
+          let '(w3, sec') :=
             if oflag o1 CFGF_MULTI || match existing with None => true | Some _ => false end then
               let w' := match existing with Some s => log_frees w1 (frees_c s) | None => w1 end in
-              (w', Cfg (o_name o1) txt
-                       (if oflag o1 CFGF_KEYSTRVAL then setf (c_flags c) CFGF_KEYSTRVAL else c_flags c)
-                       (o_sub o1) (c_file c) (c_line c) (c_err c) None)
+              init_defaults fuel' w'
+                (Cfg (o_name o1) txt
+                     (if oflag o1 CFGF_KEYSTRVAL then setf (c_flags c) CFGF_KEYSTRVAL else c_flags c)
+                     (o_sub o1) (c_file c) (c_line c) (c_err c) None)
             else (w1, match existing with Some s => s | None => Cfg [] None 0 [] None 0 false None end) in
-          let '(w3, sec') := if oflag o1 CFGF_DEFINIT then (w2, sec) else init_defaults fuel' w2 sec in
           store w3 (VSec (Some sec'))
       | _ => (add_diags w1 (cfg_diag c "internal error in cfg_setopt(%s, %s)"), o1, None)
       end
